@@ -195,6 +195,7 @@ fn fmt_code(v: u64) -> String {
         4 if c == 9 => format!("export-history(case#{b},subject={d})"),
         4 => format!("export-size(n={},order={c},subject={d})", (a << 14) | b),
         5 => format!("new(type#{a})"),
+        6 => format!("bigtree-history(case#{a})"),
         _ => format!("step#{v:#x}"),
     }
 }
@@ -962,6 +963,256 @@ fn sweep_niche(a: &Args) -> ! {
     finish(acc.report(t0, true, ""), a)
 }
 
+
+// ---------------------------------------------------------------------------
+// bigtree: long deterministic histories on maps / sets of a few thousand entries (u32 keys)
+// ---------------------------------------------------------------------------
+
+trait BigSub: Sized {
+    const NAME: &'static str;
+    fn new(hint: usize) -> Self;
+    fn ins(&mut self, k: u32, v: u32);
+    fn del(&mut self, k: u32);
+    fn get(&self, k: u32) -> Option<u32>;
+    fn fil(&self, k: u32) -> u32;
+    fn at(&self, h: u32) -> u32;
+    fn clr(&mut self);
+    fn empty(&self) -> bool;
+    fn snap(&self) -> i_tree::verif::ArenaSnap<(u32, u32)>;
+}
+impl BigSub for i_tree::map::tree::MapTree<u32, u32> {
+    const NAME: &'static str = "MapTree<u32,u32>";
+    fn new(hint: usize) -> Self {
+        i_tree::map::tree::MapTree::new(hint)
+    }
+    fn ins(&mut self, k: u32, v: u32) {
+        i_tree::map::sort::MapCollection::insert(self, k, v)
+    }
+    fn del(&mut self, k: u32) {
+        i_tree::map::sort::MapCollection::delete(self, k)
+    }
+    fn get(&self, k: u32) -> Option<u32> {
+        i_tree::map::sort::MapCollection::get_value(self, k).copied()
+    }
+    fn fil(&self, k: u32) -> u32 {
+        i_tree::map::sort::MapCollection::first_index_less(self, k)
+    }
+    fn at(&self, h: u32) -> u32 {
+        *i_tree::map::sort::MapCollection::value_by_index(self, h)
+    }
+    fn clr(&mut self) {
+        i_tree::map::sort::MapCollection::clear(self)
+    }
+    fn empty(&self) -> bool {
+        i_tree::map::sort::MapCollection::is_empty(self)
+    }
+    fn snap(&self) -> i_tree::verif::ArenaSnap<(u32, u32)> {
+        self.verif_snapshot()
+    }
+}
+/// set value: key in the high half, payload in the low half is not possible for the library's own
+/// `KeyValue<u32> for u32`, so the value is the key itself and the "payload" is derived from it
+impl BigSub for i_tree::set::tree::SetTree<u32, u32> {
+    const NAME: &'static str = "SetTree<u32,u32>";
+    fn new(hint: usize) -> Self {
+        i_tree::set::tree::SetTree::new(hint)
+    }
+    fn ins(&mut self, k: u32, _v: u32) {
+        i_tree::set::sort::SetCollection::insert(self, k)
+    }
+    fn del(&mut self, k: u32) {
+        i_tree::set::sort::SetCollection::delete(self, &k)
+    }
+    fn get(&self, k: u32) -> Option<u32> {
+        i_tree::set::sort::SetCollection::get_value(self, &k).map(|v| v.wrapping_mul(7) + 3)
+    }
+    fn fil(&self, k: u32) -> u32 {
+        i_tree::set::sort::SetCollection::first_index_less(self, &k)
+    }
+    fn at(&self, h: u32) -> u32 {
+        i_tree::set::sort::SetCollection::value_by_index(self, h).wrapping_mul(7) + 3
+    }
+    fn clr(&mut self) {
+        i_tree::set::sort::SetCollection::clear(self)
+    }
+    fn empty(&self) -> bool {
+        i_tree::set::sort::SetCollection::is_empty(self)
+    }
+    fn snap(&self) -> i_tree::verif::ArenaSnap<(u32, u32)> {
+        let s = self.verif_snapshot();
+        i_tree::verif::ArenaSnap {
+            root: s.root,
+            slots: s.slots.iter().map(|x| i_tree::verif::SlotSnap { parent: x.parent, left: x.left, right: x.right, black: x.black, payload: (x.payload, x.payload.wrapping_mul(7) + 3) }).collect(),
+            unused: s.unused,
+            unused_capacity: s.unused_capacity,
+        }
+    }
+}
+
+fn big_perm(n: u32, kind: u32) -> Vec<u32> {
+    match kind {
+        0 => (0..n).collect(),
+        1 => (0..n).rev().collect(),
+        _ => {
+            let mut m = 7919 % n.max(1);
+            while m == 0 || gcd(m, n) != 1 {
+                m += 1;
+            }
+            (0..n).map(|i| ((i as u64 * m as u64 + (n / 3) as u64) % n as u64) as u32).collect()
+        }
+    }
+}
+fn gcd(a: u32, b: u32) -> u32 {
+    if b == 0 { a } else { gcd(b, a % b) }
+}
+
+fn big_checkpoint<S: BigSub>(t: &S, model: &BTreeMap<u32, u32>, hint: usize, peak: usize, what: &str) -> Result<(), (String, String)> {
+    if t.empty() != model.is_empty() {
+        return Err(("is_empty".into(), format!("{what}: is_empty() = {} with {} keys stored", t.empty(), model.len())));
+    }
+    for (k, v) in model {
+        if t.get(*k) != Some(*v) {
+            return Err(("get_value".into(), format!("{what}: get_value({k}) = {:?}, reference says Some({v})", t.get(*k))));
+        }
+        let h = t.fil(*k);
+        if h == i_tree::EMPTY_REF || t.at(h) != *v {
+            return Err(("handle".into(), format!("{what}: first_index_less({k}) = {h} does not designate the entry of key {k}")));
+        }
+    }
+    // absent keys right next to stored ones
+    for k in model.keys().step_by(37) {
+        if !model.contains_key(&(k + 1)) && t.get(k + 1).is_some() {
+            return Err(("get_value".into(), format!("{what}: get_value({}) of an absent key returned a value", k + 1)));
+        }
+    }
+    let s = t.snap();
+    let a = crate::inv::analyze(&s, |p| p.0);
+    if let Some(e) = a.rb_errors.first() {
+        return Err(("structure".into(), format!("{what}: {e}")));
+    }
+    if a.inorder.len() != model.len() {
+        return Err(("structure".into(), format!("{what}: {} entries linked, {} stored", a.inorder.len(), model.len())));
+    }
+    if let Some(e) = a.arena_errors.first() {
+        return Err(("arena".into(), format!("{what}: {e}")));
+    }
+    if a.inorder.len() + s.unused.len() + 1 != s.slots.len() {
+        return Err(("arena".into(), format!("{what}: {} linked + {} free + sentinel != {} slots", a.inorder.len(), s.unused.len(), s.slots.len())));
+    }
+    let bound = 8 * (peak + 1) + hint.max(8);
+    if s.slots.len() > bound {
+        return Err(("growth".into(), format!("{what}: buffer holds {} slots for a peak population of {peak} (bound {bound})", s.slots.len())));
+    }
+    Ok(())
+}
+
+fn big_history<S: BigSub>(hint: usize, n: u32, order: u32, keep_pct: u32, acc: &mut Acc, case_no: u64) {
+    let case = vec![
+        format!("{}::new({hint})", S::NAME),
+        format!("insert {n} keys (order #{order}: 0 ascending, 1 descending, 2 strided)"),
+        format!("delete down to {keep_pct}% (at least one entry unless 0), clear, insert {} keys in another order, delete all", 2 * n),
+        format!("--only {hint},{n},{order},{keep_pct}"),
+    ];
+    rt::hist_reset();
+    rt::hist_push(code(6, case_no, 0, 0, 0));
+    let mut model: BTreeMap<u32, u32> = BTreeMap::new();
+    let mut peak = 0usize;
+    let r = guard(|| -> Result<(), (String, String)> {
+        let mut t = S::new(hint);
+        let val = |k: u32| k.wrapping_mul(7) + 3;
+        for (j, k) in big_perm(n, order).into_iter().enumerate() {
+            t.ins(k * 2, val(k * 2));
+            model.insert(k * 2, val(k * 2));
+            peak = peak.max(model.len());
+            if j % 997 == 996 {
+                big_checkpoint(&t, &model, hint, peak, "while filling")?;
+            }
+        }
+        big_checkpoint(&t, &model, hint, peak, "after the fill")?;
+        let keep = if keep_pct == 0 { 0 } else { ((n as u64 * keep_pct as u64 / 100) as usize).max(1) };
+        for k in big_perm(n, 2 - order.min(2)) {
+            if model.len() <= keep {
+                break;
+            }
+            t.del(k * 2);
+            model.remove(&(k * 2));
+        }
+        big_checkpoint(&t, &model, hint, peak, "after thinning out")?;
+        t.clr();
+        model.clear();
+        big_checkpoint(&t, &model, hint, peak, "after clear")?;
+        for (j, k) in big_perm(2 * n, (order + 1) % 3).into_iter().enumerate() {
+            t.ins(k, val(k));
+            model.insert(k, val(k));
+            peak = peak.max(model.len());
+            if j as u32 % (n / 2).max(1) == 0 {
+                big_checkpoint(&t, &model, hint, peak, "while refilling after clear")?;
+            }
+        }
+        big_checkpoint(&t, &model, hint, peak, "after the refill")?;
+        for (j, k) in big_perm(2 * n, 2).into_iter().enumerate() {
+            t.del(k);
+            model.remove(&k);
+            if j % 1999 == 1998 {
+                big_checkpoint(&t, &model, hint, peak, "while draining")?;
+            }
+        }
+        big_checkpoint(&t, &model, hint, peak, "after draining")?;
+        t.clr();
+        t.ins(5, val(5));
+        model.insert(5, val(5));
+        big_checkpoint(&t, &model, hint, peak, "after clear of an empty collection and one insert")
+    });
+    acc.transitions += 6 * n as u64;
+    acc.evals += 12;
+    acc.nontrivial += 1;
+    acc.states.insert(fingerprint(format!("{}:{hint}:{n}:{order}:{keep_pct}", S::NAME).as_bytes()));
+    match r {
+        Ok(Ok(())) => {}
+        Ok(Err((tag, msg))) => acc.viol("history", &tag, msg, case.clone()),
+        Err(_) => acc.viol("history", "panic", format!("the subject panicked: {}", rt::last_panic()), case.clone()),
+    }
+    if acc.samples.is_empty() {
+        acc.samples.push(case);
+    }
+}
+
+fn sweep_bigtree(a: &Args) -> ! {
+    let t0 = Instant::now();
+    let prop = a.prop();
+    let set = a.get("sys").unwrap_or("maptree") == "settree";
+    let sys = if set { <i_tree::set::tree::SetTree<u32, u32> as BigSub>::NAME } else { <i_tree::map::tree::MapTree<u32, u32> as BigSub>::NAME };
+    register(a, sys);
+    let mut cases: Vec<(usize, u32, u32, u32)> = vec![];
+    if let Some(o) = a.get("only") {
+        let p: Vec<u32> = o.split(',').map(|x| x.parse().unwrap()).collect();
+        cases.push((p[0] as usize, p[1], p[2], p[3]));
+    } else {
+        let sizes: Vec<u32> = a.get("sizes").unwrap_or("500,1023,1024,1025,3000").split(',').map(|x| x.parse().unwrap()).collect();
+        for hint in [0usize, 1, 8, 9, 1025] {
+            for &n in &sizes {
+                for order in 0..3 {
+                    for keep in [0u32, 1, 10, 50, 100] {
+                        cases.push((hint, n, order, keep));
+                    }
+                }
+            }
+        }
+    }
+    let cs = &cases;
+    let acc = parallel(cases.len(), a.num("threads", 16) as usize, prop, sys, |i, acc| {
+        let (hint, n, order, keep) = cs[i];
+        if set {
+            big_history::<i_tree::set::tree::SetTree<u32, u32>>(hint, n, order, keep, acc, i as u64);
+        } else {
+            big_history::<i_tree::map::tree::MapTree<u32, u32>>(hint, n, order, keep, acc, i as u64);
+        }
+    });
+    let mut acc = acc;
+    acc.count("histories", cases.len() as u64);
+    finish(acc.report(t0, a.get("only").is_none(), ""), a)
+}
+
 pub fn dispatch(a: &Args) -> ! {
     match a.get("kind").unwrap_or("") {
         "pairs" => sweep_pairs(a),
@@ -970,6 +1221,7 @@ pub fn dispatch(a: &Args) -> ! {
         "layout" => sweep_layout(a),
         "export-sizes" => sweep_export_sizes(a),
         "niche" => sweep_niche(a),
+        "bigtree" => sweep_bigtree(a),
         _ => die("unknown --kind"),
     }
 }
